@@ -20,6 +20,7 @@ import z3
 from . import api, ops
 from .path import Path
 from .sym import (
+    SMemView,
     BoundMethod,
     Closure,
     DeadPath,
@@ -119,7 +120,7 @@ class Interp:
     def run_function(self, func: Any, args: dict, defcls: Optional[type] = None) -> Any:
         """Execute the real body of func with bound arguments `args`; returns value or raises PyRaise."""
         node, gl = self.reg.function_ast(func)
-        frame = Frame(dict(args), gl, func=func, defcls=defcls, qual=self.reg.qualname(func))
+        frame = Frame(dict(args), gl, func=func, defcls=defcls, qual=self.reg.qualname(func), spec=_is_spec_function(func))
         frame.entry_old = Frame(dict(args), gl, func=func, defcls=defcls, qual=frame.qual)  # type: ignore[attr-defined]
         if _is_generator(node):
             return self._run_generator(node, frame)
@@ -548,6 +549,19 @@ class Interp:
 
     def set_item(self, obj: Any, sl: ast.expr, v: Any, f: Frame) -> None:
         p = self.p
+        if isinstance(obj, SMemView):
+            if not isinstance(obj.base, SByteArray):
+                raise PyRaise(SExc(TypeError, ("cannot modify read-only memory",)))
+            if not (isinstance(sl, ast.Slice) and sl.lower is None and sl.upper is None and sl.step is None):
+                raise Unsupported("memoryview store other than view[:] = data")
+            src = as_sbytes(v)
+            if not p.branch(src.n == obj.n, "memoryview-assign-size"):
+                raise PyRaise(SExc(ValueError, ("memoryview assignment: lvalue and rvalue have different structures",)))
+            cur = obj.base.v
+            lo_t, n_t = obj.lo, obj.n
+            obj.base.v = SBytes(cur.n, lambda i, cur=cur, src=src, lo_t=lo_t, n_t=n_t:
+                                z3.If(z3.And(i >= lo_t, i < lo_t + n_t), src.at(i - lo_t), cur.at(i)), cur.name + "[mv]=")
+            return
         if isinstance(obj, (SByteArray, bytearray)):
             if isinstance(obj, bytearray):
                 raise Unsupported("store into a concrete bytearray (use SByteArray)")
@@ -698,6 +712,9 @@ class Interp:
 
     def ex_IfExp(self, n: ast.IfExp, f: Frame) -> Any:
         c = self.ev(n.test, f)
+        if f.spec and is_sym(c):
+            # specification code: a conditional expression is a value-level ite (no fork, lazily typed)
+            return self._spec_ite(ops.truth_term(self.p, c), n.body, n.orelse, f)
         if self.p.no_branch and is_sym(c):
             a, b = self.ev(n.body, f), self.ev(n.orelse, f)
             return self.ite_value(ops.truth_term(self.p, c), a, b)
@@ -715,7 +732,9 @@ class Interp:
         if is_bytes_like(a) and is_bytes_like(b):
             a, b = as_sbytes(a), as_sbytes(b)
             return SBytes(z3.If(c, a.n, b.n), lambda i, a=a, b=b, c=c: z3.If(c, a.at(i), b.at(i)), "ite")
-        raise Unsupported("conditional value of mixed kinds inside a quantifier body")
+        if not ops.has_sym(a) and not ops.has_sym(b) and type(a) is type(b) and a == b:
+            return a
+        raise Unsupported("conditional value of mixed kinds in a specification / quantifier body")
 
     def ex_UnaryOp(self, n: ast.UnaryOp, f: Frame) -> Any:
         v = self.ev(n.operand, f)
@@ -746,7 +765,7 @@ class Interp:
                 cur = self.ev(nxt, f)
                 continue
             # symbolic left operand
-            if isinstance(cur, SBool) and (_simple_expr(nxt) or self.p.no_branch):
+            if isinstance(cur, SBool) and (f.spec or _simple_expr(nxt) or self.p.no_branch):
                 r = self.ev(nxt, f)
                 if isinstance(r, (SBool, bool)):
                     t = z3.And(cur.t, bool_term(r)) if is_and else z3.Or(cur.t, bool_term(r))
@@ -844,6 +863,13 @@ class Interp:
             lo = self.ev(n.slice.lower, f) if n.slice.lower else None
             hi = self.ev(n.slice.upper, f) if n.slice.upper else None
             step = self.ev(n.slice.step, f) if n.slice.step else None
+            if isinstance(obj, SMemView):
+                if step is not None:
+                    raise Unsupported("memoryview slice with step")
+                tlo = ops.norm_index(p, lo, obj.n, z3.IntVal(0))
+                thi = ops.norm_index(p, hi, obj.n, obj.n)
+                nn = thi - tlo if p.entails(thi >= tlo) else z3.If(thi >= tlo, thi - tlo, 0)
+                return SMemView(obj.base, z3.simplify(obj.lo + tlo), z3.simplify(nn))
             if is_bytes_like(obj) and (ops.has_sym(obj) or ops.has_sym(lo) or ops.has_sym(hi)):
                 r = ops.bytes_slice(p, obj, lo, hi, step)
                 return SByteArray(r) if isinstance(obj, (SByteArray, bytearray)) else r
@@ -865,7 +891,7 @@ class Interp:
                 ti = int_term(idx)
                 if isinstance(idx, int) and idx < 0:
                     ti = b.n + idx
-                elif not isinstance(idx, int) and not p.entails(ti >= 0):
+                elif not isinstance(idx, int) and not p.no_branch and not p.entails(ti >= 0):
                     ti = z3.If(ti < 0, ti + b.n, ti)
                 return mk_int(b.at(ti))
             return ops.bytes_index(p, obj, idx)
@@ -1033,13 +1059,11 @@ class Interp:
                 return self.ev(n.args[1], f)
             if c is False:
                 return self.ev(n.args[2], f)
-            if not p.feasible(c):
-                return self.ev(n.args[2], f)
-            if not p.feasible(z3.Not(c)):
-                return self.ev(n.args[1], f)
-            return self.ite_value(c, self.ev(n.args[1], f), self.ev(n.args[2], f))
-        lo = self._conc_int(self.ev(n.args[0], f))
-        hi = self._conc_int(self.ev(n.args[1], f))
+            return self._spec_ite(c, n.args[1], n.args[2], f)
+        lo = self.ev(n.args[0], f)
+        hi = self.ev(n.args[1], f)
+        if len(n.args) > 3 or any(kw.arg == "expand" for kw in n.keywords):
+            lo, hi = self._conc_int(lo), self._conc_int(hi)
         lam = n.args[2]
         if not isinstance(lam, ast.Lambda) or len(lam.args.args) != 1:
             raise Unsupported("forall/exists needs a one-argument lambda")
@@ -1071,6 +1095,34 @@ class Interp:
         if name == "forall":
             return mk_bool(z3.ForAll([k], z3.Implies(rng, bool_term(body))))
         return mk_bool(z3.Exists([k], z3.And(rng, bool_term(body))))
+
+    def _spec_ite(self, c: Any, na: ast.expr, nb: ast.expr, f: Frame) -> Any:
+        p = self.p
+        if c is True:
+            return self.ev(na, f)
+        if c is False:
+            return self.ev(nb, f)
+        va = vb = None
+        ea: Any = None
+        eb: Any = None
+        try:
+            va = self.ev(na, f)
+        except (PyRaise, Unsupported) as e:
+            ea = e
+        try:
+            vb = self.ev(nb, f)
+        except (PyRaise, Unsupported) as e:
+            eb = e
+        if ea is None and eb is None:
+            if va is vb:
+                return va
+            return self.ite_value(c, va, vb)
+        # one side is not even well-typed here: it must be impossible
+        if ea is not None and eb is None and not p.feasible(c):
+            return vb
+        if eb is not None and ea is None and not p.feasible(z3.Not(c)):
+            return va
+        raise (ea or eb)
 
     def _conc_int(self, v: Any) -> Any:
         """Concrete int if the path condition fixes the value, else the value itself."""
@@ -1189,7 +1241,7 @@ class Interp:
         if self.reg.qualname(func) in self.reg.concrete_ok and not ops.has_sym(args) and not ops.has_sym(kwargs):
             return self._native(func, args, kwargs)
         con = self.reg.contract_for(func)
-        if con is not None and not self.reg.is_under_inline(func):
+        if con is not None and not self.reg.may_inline(func):
             return self.reg.apply_contract(self, con, func, args, kwargs, f)
         if self.reg.may_inline(func):
             return self._inline(func, args, kwargs, defcls)
